@@ -538,6 +538,13 @@ impl Analyzable for PolicyConstructor {
 impl Analyzable for PolicyDef {
     fn analyze(&mut self, parent: Option<Rc<Scope>>) -> AnalyzeReport {
         match &mut self.value {
+            PolicyValue::Constructor(x) if x.find_field("hash").is_none() => {
+                x.analyze(parent)
+                    + AnalyzeReport::from(Error::invalid_expression(
+                        format!("policy '{}' needs a hash", self.name.value),
+                        &self.span,
+                    ))
+            }
             PolicyValue::Constructor(x) => x.analyze(parent),
             PolicyValue::Assign(_) => AnalyzeReport::default(),
         }
@@ -615,11 +622,15 @@ impl Analyzable for RecordConstructorField {
 
 impl Analyzable for VariantCaseConstructor {
     fn analyze(&mut self, parent: Option<Rc<Scope>>) -> AnalyzeReport {
-        let name = if self.name.symbol.is_some() {
-            AnalyzeReport::default()
-        } else {
-            self.name.analyze(parent.clone())
-        };
+        // the case name is looked up among the cases of the constructed type only: an enclosing
+        // constructor must not lend its own cases (e.g. its implicit `Default`) to a nested one
+        if self.name.symbol.is_none() {
+            self.name.symbol = parent
+                .as_ref()
+                .and_then(|scope| scope.symbols.get(&self.name.value).cloned());
+        }
+
+        let name = AnalyzeReport::default();
 
         let mut scope = Scope::new(parent);
 
@@ -888,8 +899,11 @@ impl Analyzable for PropertyOp {
         self.scope = Some(Rc::new(scope));
 
         // a property name resolves to a record field, which is not a value on its own
+        // (an index into a list, on the other hand, is an ordinary expression)
+        let is_index = matches!(self.operand.target_type(), Some(Type::List(_)));
+
         let path = match self.property.as_mut() {
-            DataExpr::Identifier(field) => field.analyze(self.scope.clone()),
+            DataExpr::Identifier(field) if !is_index => field.analyze(self.scope.clone()),
             other => other.analyze(self.scope.clone()),
         };
 
